@@ -400,6 +400,82 @@ fn u32_ntt_component(n: usize) -> (u64, Vec<Found>) {
     (cases, out)
 }
 
+/// intermediate-state sparsity for the 30-bit NTT (see C11): inputs whose residues modulo the partial factors
+/// X^m - zeta have each half-block zero or dense, forward against the defining sums, inverse back to the input
+fn u32_sparsity(n: usize) -> (u64, Vec<Found>) {
+    use falcon_rust::verif_hooks as fh;
+    let mut out: Vec<Found> = vec![];
+    if n < 8 {
+        return (0, out);
+    }
+    let mut x = vec![0u32; n];
+    x[1] = 1;
+    let roots: Vec<u64> = match catch(|| fh::u32field_fft(&x)) {
+        Ok(r) => r.iter().map(|&v| v as u64).collect(),
+        Err(_) => return (0, out),
+    };
+    let psi = roots[0];
+    let inv = |a: u64| powmod(a, P30 - 2);
+    let pow: Vec<Vec<u64>> = roots.iter().map(|&w| { let mut v = vec![1u64; n]; for j in 1..n { v[j] = v[j - 1] * w % P30; } v }).collect();
+    let mut levels: Vec<usize> = vec![n / 2, n / 4, 8, 16];
+    levels.retain(|&m| m >= 2 && m < n);
+    levels.sort();
+    levels.dedup();
+    let mut jobs: Vec<(usize, Vec<bool>)> = vec![];
+    for &m in &levels {
+        for p in super::c11::sparsity_patterns(2 * (n / m)) {
+            jobs.push((m, p));
+        }
+    }
+    let cases = jobs.len() as u64;
+    let res: Vec<Option<Found>> = jobs
+        .par_iter()
+        .map(|(m, pat)| {
+            let m = *m;
+            let b = n / m;
+            let binv = inv(b as u64);
+            let zinv: Vec<u64> = (0..b).map(|i| inv(powmod(psi, (m * (2 * i + 1)) as u64))).collect();
+            let res_at = |blk: usize, p: usize| -> u64 {
+                let h = 2 * blk + if p >= m / 2 { 1 } else { 0 };
+                if pat[h] { 1 + ((blk as u64 * 7919 + p as u64 * 104729 + 12345) * 2654435761 % (P30 - 1)) } else { 0 }
+            };
+            let mut a = vec![0u32; n];
+            for c in 0..b {
+                let zc: Vec<u64> = zinv.iter().map(|&z| powmod(z, c as u64)).collect();
+                for p in 0..m {
+                    let mut acc = 0u64;
+                    for blk in 0..b {
+                        let r = res_at(blk, p);
+                        if r != 0 {
+                            acc = (acc + r * zc[blk] % P30) % P30;
+                        }
+                    }
+                    a[c * m + p] = (acc * binv % P30) as u32;
+                }
+            }
+            let want: Vec<u32> = (0..n).map(|k| { let mut acc = 0u64; for j in 0..n { acc = (acc + a[j] as u64 * pow[k][j] % P30) % P30; } acc as u32 }).collect();
+            let case = || json!({"kind":"u32ntt","n":n});
+            let describe = || format!("blocks of length {} with dense halves {:?}", m, pat.iter().enumerate().filter(|(_, x)| **x).map(|(i, _)| i).collect::<Vec<_>>());
+            match catch(|| fh::u32field_fft(&a)) {
+                Ok(g) if g == want => {}
+                Ok(_) => return Some(found(format!("u32-ntt:n={}:sparsity-forward", n), format!("n={}: the 30-bit ntt of the input whose residues modulo X^{} - zeta are [{}] differs from the defining sum", n, m, describe()), case())),
+                Err(e) => return Some(found(format!("u32-ntt:n={}:sparsity-panic", n), format!("n={}: the 30-bit ntt panicked on [{}]: {}", n, describe(), e), case())),
+            }
+            match catch(|| fh::u32field_ifft(&want)) {
+                Ok(g) if g == a => None,
+                Ok(_) => Some(found(format!("u32-ntt:n={}:sparsity-inverse", n), format!("n={}: the 30-bit intt of the spectrum of [{}] does not return the input", n, describe()), case())),
+                Err(e) => Some(found(format!("u32-ntt:n={}:sparsity-panic", n), format!("n={}: the 30-bit intt panicked on the spectrum of [{}]: {}", n, describe(), e), case())),
+            }
+        })
+        .collect();
+    for f in res.into_iter().flatten() {
+        if out.len() < 4 && !out.iter().any(|x| x.key == f.key) {
+            out.push(f);
+        }
+    }
+    (cases, out)
+}
+
 pub fn run(tier: Tier) {
     let mut ctx = Ctx::new("C17", tier);
     let ns: Vec<usize> = crate::util::sizes(2);
@@ -569,12 +645,22 @@ pub fn run(tier: Tier) {
     }
     ctx.add_part(part);
     let comp: Vec<(usize, (u64, Vec<Found>))> = ns.par_iter().map(|&n| (n, u32_ntt_component(n))).collect();
-    let mut part = Part::new("u32_ntt_component", "the 30-bit NTT used by the multi-modular reduction, every n in {2,...,1024}: ntt(X) lists n distinct roots of X^n+1 mod p; ntt(c x^j) = c w_k^j and intt(ntt(c x^j)) = c x^j for all j and c in {+-1, +-2, +-2^20, 2^28-3} (negative c are residues next to the modulus); intt(ntt(+-x^j) .* ntt(f)) = +-x^j f for every j and two small dense f (one reduction step with a monomial multiplier)");
+    let mut part = Part::new("u32_ntt_component", "the 30-bit NTT used by the multi-modular reduction, every n in {2,...,1024}: ntt(X) lists n distinct roots of X^n+1 mod p; ntt(c x^j) = c w_k^j and intt(ntt(c x^j)) = c x^j for all j and c in {+-1, +-2, +-2^20, 2^28-3} (negative c are residues next to the modulus); intt(ntt(+-x^j) .* ntt(f)) = +-x^j f for every j and two small dense f (one reduction step with a monomial multiplier); intermediate-state sparsity as in C11 (residues modulo X^m - zeta with each half-block zero or dense, m in {n/2, n/4, 8, 16})");
     for (n, (c, f)) in comp {
         part.states += c;
         part.transitions += 3 * c;
         part.validated += c;
         part.outcome(format!("n={} cases={}", n, c));
+        for x in f {
+            ctx.violation(x.key, x.what, x.case);
+        }
+    }
+    for &n in &ns {
+        let (c, f) = u32_sparsity(n);
+        part.states += c;
+        part.transitions += 2 * c;
+        part.validated += c;
+        part.outcome(format!("n={} sparsity patterns={}", n, c));
         for x in f {
             ctx.violation(x.key, x.what, x.case);
         }
@@ -589,7 +675,7 @@ pub fn run(tier: Tier) {
 pub fn replay(case: &Value) -> Result<Option<String>, String> {
     if case.get("kind").and_then(|k| k.as_str()) == Some("u32ntt") {
         let n = case.get("n").and_then(|x| x.as_u64()).ok_or("n")? as usize;
-        return Ok(u32_ntt_component(n).1.into_iter().next().map(|f| f.what));
+        return Ok(u32_ntt_component(n).1.into_iter().chain(u32_sparsity(n).1).next().map(|f| f.what));
     }
     let v = |k: &str| -> Result<V, String> { Ok(case.get(k).and_then(|x| x.as_array()).ok_or(format!("missing {}", k))?.iter().map(|x| x.as_i64().unwrap_or(0)).collect()) };
     let b = Base { f: v("f")?, g: v("g")?, cf: vec![], cg: vec![], origin: "replay".into() };
